@@ -608,7 +608,7 @@ def _fn_tests_tag_equal(prog, g, want_idx_of_param=None):
     return False
 
 
-def _tag_evidence(prog, m, idx, bb):
+def _tag_evidence(prog, m, idx, bb, depth=0):
     """Is the call block `bb` dominated by the taken edge of a condition that reads the tag of ops[idx] and compares it
     with DiffTag::Equal?  The condition may be an `if let Some(DiffTag::Equal) = ..get(idx).map(|x| x.tag())`, a boolean
     computed with `==`, `matches!`, `map_or`, a `match` producing an Option<DiffTag>, or a small helper
@@ -632,6 +632,19 @@ def _tag_evidence(prog, m, idx, bb):
         taken = [(v, tg) for v, tg in edges if tg == bb or m.dominates(tg, bb)]
         if not taken or len(taken) == len(edges):
             continue
+        # `if matches!(ops.get(j), Some(op) if op.tag() == DiffTag::Equal) { .. }`: the switch reads a bool that is `true`
+        # in exactly one block and `false` elsewhere -- the evidence is whatever guards the block that stores `true`
+        if (t.get("discr_ty") or "") == "bool" and not d["p"]["proj"] and depth < 3:
+            defs_ = m.defs().get(d["p"]["l"], [])
+            consts = []
+            for db, di, dk, dp in defs_:
+                if dk == "assign" and dp["k"] == "use" and dp["op"].get("k") == "const":
+                    consts.append((db, str(dp["op"].get("val"))))
+            if len(consts) == len(defs_) and len(consts) >= 2:
+                trues = [db for db, v in consts if v in ("true", "const true")]
+                on_true = any(v == "otherwise" for v, _ in taken) and t["values"] == ["0"]
+                if len(trues) == 1 and on_true and _tag_evidence(prog, m, idx, trues[0], depth + 1):
+                    return True
         calls = _backward_calls(m, d["p"]["l"])
         # is the discriminant a DiffTag discriminant?  then the taken edge must be the Equal one
         sd = m.single_def(d["p"]["l"]) if not d["p"]["proj"] else None
